@@ -144,6 +144,12 @@ def cases(tier, seed):
         if fn != 5:
             out.append({"kind": "reject", "enc": "str", "fn": fn, "poss": [None, "a", "b", "z"] if fn < 5 else [None],
                         "items": _reject_items(fn, STR_REJECT, STR_LEN, [])})
+    # weights whose length disagrees with the predictions (length 1 against n >= 2 included: it must not be
+    # broadcast silently) -- selection_rate and mean_prediction, every weight container
+    for fn in (4, 5):
+        out.append({"kind": "wlen", "enc": "num", "fn": fn,
+                    "calls": [[[0, 1, 1], [1, 0, 1], [2.0]], [[0, 1], [1, 1], [1.0, 2.0, 3.0]],
+                              [[1, 1, 0, 0, 1, 0], [1, 0, 1, 1, 0, 1], [0.5]], [[0, 1, 1, 0], [1, 1, 0, 0], [1.0, 1.0]]]})
     return out
 
 
@@ -160,6 +166,18 @@ def impl(case):
     fn = case["fn"]
     f = getattr(fm, FUNCS[fn])
     res = []
+    if case["kind"] == "wlen":
+        import pandas as pd
+        for t, p, w in case["calls"]:
+            for cont in ("list", "ndarray", "series", "column"):
+                sw = {"list": list(w), "ndarray": np.array(w), "series": pd.Series(w),
+                      "column": np.array(w).reshape(-1, 1)}[cont]
+                try:
+                    r = f(list(t), list(p), sample_weight=sw)
+                    res.append(["ok", [float(x) for x in np.asarray(r, dtype=float).reshape(-1)], cont])
+                except Exception as e:  # noqa
+                    res.append(["exc", type(e).__name__, cont])
+        return res
     for k, t, p, pos, j, w in _calls(case):
         as_array = (k + j) % 2 == 1
         yt = np.array(t) if as_array and len(t) else list(t)
@@ -236,6 +254,8 @@ def _gitem(it):
 
 
 def term(case, out):
+    if case["kind"] == "wlen":
+        return None
     poss = glist([gopt(None if x is None else _code(x), gz) for x in _poss(case)])
     return f"run_block {gnat(case['fn'])} {poss} {glist(map(_gitem, _items(case)))}"
 
@@ -260,6 +280,17 @@ def compare(case, out, model):
     name = FUNCS[fn]
     v = []
     seen = set()
+    if case["kind"] == "wlen":
+        k = 0
+        for t, p, w in case["calls"]:
+            for cont in ("list", "ndarray", "series", "column"):
+                o = out[k]; k += 1
+                if o[0] != "exc":
+                    return [(f"{PID}/{name}/exception/accepts-mismatched-weight-length",
+                             f"{name}({t}, {p}, sample_weight=<{cont} of length {len(w)}>) returned {o[1]} instead of raising",
+                             "weights whose length disagrees with the predictions are rejected, never broadcast",
+                             "property")]
+        return []
 
     def add(sig, what, oracle):
         if sig not in seen:
@@ -298,6 +329,8 @@ def tags(case, out, model):
     t = [f"kind:{case['kind']}", f"enc:{case['enc']}", f"fn:{FUNCS[case['fn']]}"]
     if case["kind"] == "block":
         t.append(f"n:{case['n']}")
+    if case["kind"] == "wlen":
+        return t
     if model is not None:
         acc = sum(1 for m in model if m is not None)
         t += ["calls-accepted"] * acc + ["calls-rejected"] * (len(model) - acc)
@@ -305,6 +338,8 @@ def tags(case, out, model):
 
 
 def nontrivial(case, out, model):
+    if case["kind"] == "wlen":
+        return True
     return model is not None and any(m is not None for m in model)
 
 
@@ -313,6 +348,11 @@ def canon(case):
 
 
 def shrink(case):
+    if case["kind"] == "wlen":
+        for c_ in case["calls"]:
+            if len(case["calls"]) > 1:
+                yield dict(case, calls=[c_])
+        return
     items = _items(case)
     poss = _poss(case)
     base = dict(case, items=items, poss=poss)
